@@ -14,7 +14,8 @@ The recogniser works in two halves:
   rule number placement, the header-row-count case analysis, `pivot`, size validation and the
   construction of the `DecisionTable`.  This half is modelled statement by statement below;
   every index access of the Rust code is explicit: it yields `ok`, `error` (an `Err(..)` of
-  the Rust code) or `panic` (an index / `unwrap` / arithmetic panic of the Rust code).
+  the Rust code) or `panic` (an unchecked index of the Rust code; after the repair of F19e only
+  the `xs[i]` of `builder.rs` are left, and `plane_no_panic` shows they are in range).
 
 Texts are `List Char` (kernel-reducible).  A region's `Rect` is dropped: it is used only in
 debug output.
@@ -29,9 +30,10 @@ orientations, `Decor` = the texts and variants of a drawing that are not part of
 `Display`; `draw` (the box-drawing text, `Sheet` renderer); `planeOfMerged` (merged input entry
 cells); `autoLayout` (fits and pads logical texts; used by the correspondence only).
 
-Deviations of the code from the property that the model reproduces (see `Props/C19.lean`):
-F19a/F19b (rules-as-columns tables rejected because the top-left cell / the first column are
-tried first for the hit policy / the rule numbers), F19e (index panics on ragged planes).
+The model mirrors the code after the repairs of the findings F19a/F19b (the hit policy
+corner and the rule number lane are chosen by where the rule numbers are, not by the first
+text that parses), F19c/F19d (a blank allowed-values cell means no allowed values) and F19e
+(checked indexing: ragged planes are errors).
 -/
 
 namespace Dmn.Recog
@@ -106,26 +108,11 @@ inductive Err where
   | invalidSize (check : Nat)
   deriving DecidableEq, Repr, Inhabited
 
-/-- Places where the Rust code panics instead of returning an error. -/
+/-- Places where the Rust code panics instead of returning an error.  After the repair of
+F19e (checked indexing in `plane.rs`, saturating `Rect::width/height`) the only unchecked
+index accesses left are those of `builder.rs`, which `validate_size` excludes
+(`plane_no_panic`). -/
 inductive Site where
-  /-- plane.rs:447 `self.content.first().unwrap().first().unwrap()` on an empty first row -/
-  | hpFirstUnwrap
-  /-- plane.rs:454 `self.content.last().unwrap().first().unwrap()` on an empty last row -/
-  | hpLastUnwrap
-  /-- plane.rs:472/535 `self.content[row][col]` while looking for the horizontal double line -/
-  | horzSkipIndex
-  /-- plane.rs:478 `self.content[row][0]` on an empty row below the double line -/
-  | horzRuleIndex
-  /-- plane.rs:503 `self.content.len() - 1` on an empty plane -/
-  | vertLastRow
-  /-- plane.rs:504/540 `self.content[row][col]` while looking for the vertical double line -/
-  | vertSkipIndex
-  /-- plane.rs:332 `self.content[0]` on a plane without rows -/
-  | pivotIndex
-  /-- plane.rs:335 `self.content[row].remove(0)` on a row shorter than the first row -/
-  | pivotRemove
-  /-- rect.rs:87/92 `self.right - self.left`, `self.bottom - self.top` (overflow-checked builds; wraps in release builds) -/
-  | rectSub
   /-- builder.rs:197.. `recognizer.xs[i]` (excluded by `validate_size`, kept explicit) -/
   | builderIndex
   deriving DecidableEq, Repr, Inhabited
@@ -260,13 +247,11 @@ structure Rect where
   bottom : Nat
   deriving DecidableEq, Repr, Inhabited
 
-/-- rect.rs:86 `width`: `self.right - self.left`. -/
-def Rect.width (r : Rect) : Outcome Nat :=
-  if r.left ≤ r.right then ok (r.right - r.left) else .panic .rectSub
+/-- rect.rs:86 `width`: `self.right.saturating_sub(self.left)`. -/
+def Rect.width (r : Rect) : Outcome Nat := ok (r.right - r.left)
 
-/-- rect.rs:91 `height`: `self.bottom - self.top`. -/
-def Rect.height (r : Rect) : Outcome Nat :=
-  if r.top ≤ r.bottom then ok (r.bottom - r.top) else .panic .rectSub
+/-- rect.rs:91 `height`: `self.bottom.saturating_sub(self.top)`. -/
+def Rect.height (r : Rect) : Outcome Nat := ok (r.bottom - r.top)
 
 def Rect.incTop (r : Rect) (k : Nat) : Rect := { r with top := r.top + k }
 
@@ -330,10 +315,11 @@ def pivotCell : Cell → Cell
   | .horzX => .vertX
   | .vertX => .horzX
 
-/-- One pass of the inner loop of `pivot`: `remove(0)` on every row. -/
+/-- One pass of the inner loop of `pivot`: `remove(0)` on every row; a row that has no cell
+left is an error (`plane_column_is_out_of_range`). -/
 def takeHeads : List (List Cell) → Outcome (List Cell × List (List Cell))
   | [] => ok ([], [])
-  | [] :: _ => .panic .pivotRemove
+  | [] :: _ => error .colOutOfRange
   | (c :: cs) :: rest =>
     match takeHeads rest with
     | ok (hs, ts) => ok (pivotCell c :: hs, cs :: ts)
@@ -357,7 +343,7 @@ def pivotLoop : Nat → List (List Cell) → Outcome (List (List Cell))
 /-- plane.rs:330 `pivot`. -/
 def pivotRows (rows : List (List Cell)) : Outcome (List (List Cell)) :=
   match rows with
-  | [] => .panic .pivotIndex
+  | [] => error .planeIsEmpty
   | r0 :: _ => pivotLoop r0.length rows
 
 def Plane.pivot (P : Plane) : Outcome Plane :=
@@ -533,68 +519,55 @@ def hpOfCell : Cell → Option HitPolicy
   | .region _ t => hitPolicyOfText t
   | _ => none
 
-/-- plane.rs:442 `recognize_hit_policy_placement`. -/
-def recognizeHitPolicyPlacement (P : Plane) : Outcome HpPlacement :=
-  match P.rows with
-  | [] => error .planeIsEmpty
-  | first :: rest =>
-    match first with
-    | [] => .panic .hpFirstUnwrap
-    | c :: _ =>
-      match hpOfCell c with
-      | some h => ok (.topLeft h)
-      | none =>
-        match (first :: rest).getLast? with
-        | none => .panic .hpLastUnwrap
-        | some [] => .panic .hpLastUnwrap
-        | some (c' :: _) =>
-          match hpOfCell c' with
-          | some h => ok (.bottomLeft h)
-          | none => ok .notPresent
-
-/-- plane.rs:471-475 `while !self.is_horizontal_output_double_line(row, 0) { row += 1 }; row += 1`:
-the rows below the first row whose first cell is the horizontal double line. -/
+/-- plane.rs `while !self.is_horizontal_output_double_line(row, 0)? { row += 1 }; row += 1`:
+the rows below the first row whose first cell is the horizontal double line.  The cell is read
+with the checked `Plane::cell`: running past the last row is `plane_row_is_out_of_range`, a row
+without cells `plane_column_is_out_of_range`. -/
 def skipToHOut : List (List Cell) → Outcome (List (List Cell))
-  | [] => .panic .horzSkipIndex
-  | [] :: _ => .panic .horzSkipIndex
+  | [] => error .rowOutOfRange
+  | [] :: _ => error .colOutOfRange
   | (c :: _) :: rest => if c.isHOut then ok rest else skipToHOut rest
 
-/-- The numbering loop shared by plane.rs:477-498 and plane.rs:509-530, over the sequence of
-cells it visits. `none` = the visited cell does not exist (index panic). -/
-def scanNumbers (site : Site) : List (Option Cell) → Nat → Outcome (Option Nat)
+/-- The numbering loop shared by the horizontal and the vertical search, over the sequence of
+cells it visits. `none` = the visited cell does not exist (`self.cell(row, 0)?` on a row
+without cells). -/
+def scanNumbers : List (Option Cell) → Nat → Outcome (Option Nat)
   | [], mx => ok (if mx > 0 then some mx else none)
-  | none :: _, _ => .panic site
+  | none :: _, _ => error .colOutOfRange
   | some (.region _ t) :: rest, mx =>
     match parseUsize (trim t) with
-    | some k => if k ≠ mx + 1 then error (.invalidRuleNumber k) else scanNumbers site rest k
+    | some k => if k ≠ mx + 1 then error (.invalidRuleNumber k) else scanNumbers rest k
     | none => ok none
   | some _ :: _, _ => ok none
 
-/-- plane.rs:470 `recognize_horizontal_rule_numbers`. -/
+/-- plane.rs `recognize_horizontal_rule_numbers`. -/
 def recognizeHorizontalRuleNumbers (P : Plane) : Outcome RnPlacement :=
-  match skipToHOut P.rows with
-  | ok below =>
-    match scanNumbers .horzRuleIndex (below.map (·.head?)) 0 with
-    | ok (some n) => ok (.leftBelow n)
-    | ok none => ok .notPresent
+  if P.rows.isEmpty then error .planeIsEmpty
+  else
+    match skipToHOut P.rows with
+    | ok below =>
+      match scanNumbers (below.map (·.head?)) 0 with
+      | ok (some n) => ok (.leftBelow n)
+      | ok none => ok .notPresent
+      | error e => error e
+      | .panic s => .panic s
     | error e => error e
     | .panic s => .panic s
-  | error e => error e
-  | .panic s => .panic s
 
-/-- plane.rs:504-507: the cells of the last row after the first vertical output double line. -/
+/-- the cells of the last row after the first vertical output double line; running past the
+end of the row is `plane_column_is_out_of_range` -/
 def skipToVOut : List Cell → Outcome (List Cell)
-  | [] => .panic .vertSkipIndex
+  | [] => error .colOutOfRange
   | c :: rest => if c.isVOut then ok rest else skipToVOut rest
 
-/-- plane.rs:501 `recognize_vertical_rule_numbers`. -/
+/-- plane.rs `recognize_vertical_rule_numbers`. -/
 def recognizeVerticalRuleNumbers (P : Plane) : Outcome RnPlacement :=
   match P.rows.getLast? with
-  | none => .panic .vertLastRow
+  | none => error .planeIsEmpty
   | some last =>
     match skipToVOut last with
     | ok after =>
-      match scanNumbers .vertSkipIndex (after.map some) 0 with
+      match scanNumbers (after.map some) 0 with
       | ok (some n) => ok (.rightAfter n)
       | ok none => ok .notPresent
       | error e => error e
@@ -602,11 +575,35 @@ def recognizeVerticalRuleNumbers (P : Plane) : Outcome RnPlacement :=
     | error e => error e
     | .panic s => .panic s
 
-/-- plane.rs:463 `recognize_rule_numbers_placement`. -/
+/-- plane.rs `recognize_rule_numbers_placement`: left-below rule numbers first; when there
+are none, or when the first column below the double line does not hold a valid numbering
+(in a rules-as-columns table it holds the output names), the rule numbers right after the
+vertical double line in the last row. -/
 def recognizeRuleNumbersPlacement (P : Plane) : Outcome RnPlacement :=
   match recognizeHorizontalRuleNumbers P with
   | ok .notPresent => recognizeVerticalRuleNumbers P
+  | error e =>
+    match recognizeVerticalRuleNumbers P with
+    | ok (.rightAfter n) => ok (.rightAfter n)
+    | _ => error e
   | other => other
+
+/-- plane.rs `recognize_hit_policy_placement`: the top-left corner — unless the rule numbers
+are placed in the last row, in which case the top-left cell is the first input expression —
+then the bottom-left corner. -/
+def recognizeHitPolicyPlacement (P : Plane) : Outcome HpPlacement :=
+  match P.rows with
+  | [] => error .planeIsEmpty
+  | first :: rest =>
+    let vertical := match recognizeRuleNumbersPlacement P with
+      | ok (.rightAfter _) => true
+      | _ => false
+    match (if vertical then none else first.head?.bind hpOfCell) with
+    | some h => ok (.topLeft h)
+    | none =>
+      match ((first :: rest).getLast?.bind (·.head?)).bind hpOfCell with
+      | some h => ok (.bottomLeft h)
+      | none => ok .notPresent
 
 /-! ## recognizer.rs -/
 
@@ -841,7 +838,7 @@ def buildRule (h : Horz) (ruleIndex : Nat) : Outcome Rule := do
     (List.range' 0 h.annotationClauseCount)
   ok ⟨ins, outs, anns⟩
 
-/-- builder.rs:198 / 210 / 215: `if count > 0 { Some(xs[i].clone()) } else { None }`. -/
+/-- builder.rs:210: `if count > 0 { Some(xs[i].clone()) } else { None }`. -/
 def optAt (xs : List Text) (i : Nat) : Outcome (Option Text) :=
   if xs.length > 0 then
     match idx xs i with
@@ -850,16 +847,28 @@ def optAt (xs : List Text) (i : Nat) : Outcome (Option Text) :=
     | .panic s => .panic s
   else ok none
 
+/-- builder.rs `non_blank`: the text of an allowed-values cell, `None` for a blank cell. -/
+def nonBlank (t : Text) : Option Text := if (trim t).isEmpty then none else some t
+
+/-- builder.rs:198 / 215: `if count > 0 { non_blank(&xs[i]) } else { None }`. -/
+def optValueAt (xs : List Text) (i : Nat) : Outcome (Option Text) :=
+  if xs.length > 0 then
+    match idx xs i with
+    | .ok v => ok (nonBlank v)
+    | .error e => error e
+    | .panic s => .panic s
+  else ok none
+
 /-- builder.rs:195-204: one input clause. -/
 def buildInput (h : Horz) (i : Nat) : Outcome InputClause := do
   let e ← idx h.inputExpressions i
-  let v ← optAt h.inputValues i
+  let v ← optValueAt h.inputValues i
   ok ⟨e, v⟩
 
 /-- builder.rs:207-222: one output clause. -/
 def buildOutput (h : Horz) (i : Nat) : Outcome OutputClause := do
   let n ← optAt h.outputComponents i
-  let v ← optAt h.outputValues i
+  let v ← optValueAt h.outputValues i
   ok ⟨n, v⟩
 
 /-- builder.rs:178 `build` after `Recognizer::recognize`. -/
@@ -931,6 +940,11 @@ structure Decor where
   /-- `true`: input entries of consecutive rules with the same text are drawn as one merged
   cell (as in `EX_05`, `EX_08` of the recogniser's tests) -/
   merge : Bool := false
+  /-- raw (blank) texts of the allowed-values cells of the inputs without allowed values,
+  by input position (the allowed-values lane is shared by all inputs and outputs) -/
+  inBlanks : List Text := []
+  /-- the same for the outputs -/
+  outBlanks : List Text := []
   deriving DecidableEq, Repr, Inhabited
 
 /-- Region numbers of the cells of a drawing. -/
@@ -956,11 +970,10 @@ def regsFrom (f : Nat → Nat) : Nat → List Text → List Cell
 
 namespace TableSpec
 
-/-- allowed values drawn? (one lane for the input and the output values) -/
+/-- allowed values drawn? (one lane for the allowed values of all inputs and outputs; it is
+drawn when at least one of them has allowed values, the others have a blank cell there) -/
 def hasValues (t : TableSpec) : Bool :=
-  match t.inputs with
-  | i :: _ => i.values.isSome
-  | [] => false
+  t.inputs.any (·.values.isSome) || t.outputs.any (·.values.isSome)
 
 /-- a separate lane for the output label (several outputs and a label) -/
 def hasLabelRow (t : TableSpec) : Bool := decide (1 < t.outputs.length) && t.label.isSome
@@ -969,9 +982,7 @@ def headerRows (t : TableSpec) : Nat :=
   (if t.hasLabelRow then 1 else 0) + 1 + (if t.hasValues then 1 else 0)
 
 def exprs (t : TableSpec) : List Text := t.inputs.map (·.expr)
-def ivals (t : TableSpec) : List Text := t.inputs.map (·.values.getD [])
 def names (t : TableSpec) : List Text := t.outputs.map (·.name.getD [])
-def ovals (t : TableSpec) : List Text := t.outputs.map (·.values.getD [])
 def labelText (t : TableSpec) : Text := t.label.getD []
 
 /-- Well-formed tables: what a drawing can express. -/
@@ -980,12 +991,22 @@ def wf (t : TableSpec) : Bool :=
   !t.inputs.isEmpty && !t.outputs.isEmpty && !t.rules.isEmpty &&
   t.rules.all (fun r => r.ins.length == t.inputs.length && r.outs.length == t.outputs.length
     && r.anns.length == t.annotations.length) &&
-  t.inputs.all (fun i => i.values.isSome == t.hasValues) &&
-  t.outputs.all (fun o => o.values.isSome == t.hasValues) &&
+  t.inputs.all (fun i => i.values.all (fun v => !(trim v).isEmpty)) &&
+  t.outputs.all (fun o => o.values.all (fun v => !(trim v).isEmpty)) &&
   (if t.outputs.length = 1 then t.label.isSome && t.outputs.all (fun o => o.name.isNone)
    else t.outputs.all (fun o => o.name.isSome))
 
 end TableSpec
+
+/-- The texts of an allowed-values lane: the allowed values, or the blank text of the cell. -/
+def valuesFrom : List (Option Text) → List Text → List Text
+  | [], _ => []
+  | v :: vs, bs => v.getD (bs.headD []) :: valuesFrom vs bs.tail
+
+def TableSpec.ivals (t : TableSpec) (d : Decor) : List Text :=
+  valuesFrom (t.inputs.map (·.values)) d.inBlanks
+def TableSpec.ovals (t : TableSpec) (d : Decor) : List Text :=
+  valuesFrom (t.outputs.map (·.values)) d.outBlanks
 
 /-- A row of the body: input cells ‖ output cells [‖ annotation cells]. -/
 def mkRow (k : Nat) (a b c : List Cell) : List Cell :=
@@ -1008,7 +1029,7 @@ def nameRow (ids : Ids) (t : TableSpec) : List Cell :=
     (regsFrom ids.ann 0 t.annotations)
 
 def valuesRow (ids : Ids) (d : Decor) (t : TableSpec) : List Cell :=
-  mkRow t.annotations.length (regsFrom ids.inVal 0 t.ivals) (regsFrom ids.outVal 0 t.ovals)
+  mkRow t.annotations.length (regsFrom ids.inVal 0 (t.ivals d)) (regsFrom ids.outVal 0 (t.ovals d))
     (if d.split then regsFrom ids.annBlank 0 d.annBlanks else regsFrom ids.ann 0 t.annotations)
 
 def doubleRow (t : TableSpec) : List Cell :=
@@ -1209,8 +1230,8 @@ def textOfKey (d : Decor) (t : TableSpec) : Key → Text
   | .label => t.labelText
   | .expr j => t.exprs.getD j []
   | .comp j => t.names.getD j []
-  | .inVal j => t.ivals.getD j []
-  | .outVal j => t.ovals.getD j []
+  | .inVal j => (t.ivals d).getD j []
+  | .outVal j => (t.ovals d).getD j []
   | .ann j => t.annotations.getD j []
   | .annBlank j => d.annBlanks.getD j []
   | .ruleNo i => d.ruleNos.getD i []
@@ -1503,7 +1524,9 @@ def mapIdxFrom (f : Nat → α → β) : Nat → List α → List β
 def mapTexts (f : Key → Text → Text) (d : Decor) (t : TableSpec) : Decor × TableSpec :=
   ({ d with hp := f .hp d.hp, hpBlank := f .hpBlank d.hpBlank,
             ruleNos := mapIdxFrom (fun i x => f (.ruleNo i) x) 0 d.ruleNos,
-            annBlanks := mapIdxFrom (fun j x => f (.annBlank j) x) 0 d.annBlanks },
+            annBlanks := mapIdxFrom (fun j x => f (.annBlank j) x) 0 d.annBlanks,
+            inBlanks := mapIdxFrom (fun j x => f (.inVal j) x) 0 d.inBlanks,
+            outBlanks := mapIdxFrom (fun j x => f (.outVal j) x) 0 d.outBlanks },
    { t with
       inputs := mapIdxFrom (fun j (i : InputClause) =>
         ⟨f (.expr j) i.expr, i.values.map (f (.inVal j))⟩) 0 t.inputs,
